@@ -114,6 +114,36 @@ fn cases(thorough: bool) -> Vec<Case> {
     add("slice a::c", "{0}[{1}::{2}]", vec![p("arr", "[1, 2, 3]"), p("int", "0"), p("int", "2")], None);
     add("slice :b:c", "{0}[:{1}:{2}]", vec![p("arr", "[1, 2, 3]"), p("int", "2"), p("int", "1")], None);
     add("string slice", "{0}[{1}:{2}]", vec![p("str", "\"abc\""), p("int", "0"), p("int", "2")], None);
+    // the same with operand values for which a shortcut is tempting: empty sequences, absorbing and
+    // neutral elements, equal operands - every operand is still evaluated, once, in order
+    add("slice a:b:c of empty", "{0}[{1}:{2}:{3}]", vec![p("arr", "[0; 0]"), p("int", "0"), p("int", "2"), p("int", "1")], None);
+    add("slice a:b of empty", "{0}[{1}:{2}]", vec![p("arr", "[0; 0]"), p("int", "0"), p("int", "2")], None);
+    add("slice :b:c of empty", "{0}[:{1}:{2}]", vec![p("arr", "[0; 0]"), p("int", "2"), p("int", "1")], None);
+    add("string slice of empty", "{0}[{1}:{2}]", vec![p("str", "\"\""), p("int", "0"), p("int", "2")], None);
+    add("slice with empty range", "{0}[{1}:{2}]", vec![p("arr", "[1, 2, 3]"), p("int", "2"), p("int", "1")], None);
+    for (name, op, a, b) in [
+        ("0 *", "*", "0", "2"), ("* 0", "*", "6", "0"), ("0 &", "&", "0", "2"), ("| -1", "|", "-1", "2"), ("0 **", "**", "0", "2"), ("** 0", "**", "6", "0"),
+        ("0 /", "/", "0", "2"), ("0 %", "%", "0", "2"), ("0 <<", "<<", "0", "2"), ("+ 0", "+", "6", "0"), ("1 *", "*", "1", "2"), ("equal ==", "==", "6", "6"), ("equal !=", "!=", "6", "6"),
+        ("equal -", "-", "6", "6"), ("equal ^", "^", "6", "6"), ("equal <", "<", "6", "6"),
+    ] {
+        add(&format!("int {name}"), &format!("{{0}} {op} {{1}}"), vec![p("int", a), p("int", b)], None);
+    }
+    add("bool false &", "{0} & {1}", vec![p("bool", "false"), p("bool", "true")], None);
+    add("bool true |", "{0} | {1}", vec![p("bool", "true"), p("bool", "false")], None);
+    add("array [] +", "{0} + {1}", vec![p("arr", "[0; 0]"), p("arr", "[2]")], None);
+    add("array + []", "{0} + {1}", vec![p("arr", "[1]"), p("arr", "[0; 0]")], None);
+    add("string \"\" +", "{0} + {1}", vec![p("str", "\"\""), p("str", "\"b\"")], None);
+    add("array == same", "{0} == {1}", vec![p("arr", "[1]"), p("arr", "[1]")], None);
+    add("repeat zero times", "[{0}; {1}]", vec![p("int", "7"), p("int", "0")], None);
+    for (name, op, b) in [("+= 0", "+=", "0"), ("*= 1", "*=", "1"), ("*= 0", "*=", "0"), ("&= 0", "&=", "0"), ("|= -1", "|=", "-1"), ("= same", "=", "6"), ("**= 0", "**=", "0")] {
+        add(&format!("assign {name}"), &format!("{{0}} {op} {{1}}"), vec![p("cell", "mut 6"), p("int", b)], None);
+    }
+    add("reduce over nothing", "{0} ${1} {2}", vec![p("iter", "[0; 0]~"), p("int", "0"), p("fn2", "(a: int, b: int) -> int { return a + b }")], None);
+    add("map over nothing", "{0} @ {1}", vec![p("iter", "[0; 0]~"), p("fn1", "(a: int) -> int { return a }")], None);
+    add("filter over nothing", "{0} ? {1}", vec![p("iter", "[0; 0]~"), p("pred", "(a: int) -> bool { return true }")], None);
+    add("partition over nothing", "{0} \\ {1}", vec![p("iter", "[0; 0]~"), p("pred", "(a: int) -> bool { return true }")], None);
+    add("empty tuple element", "({0}, {1})", vec![p("arr", "[0; 0]"), p("str", "\"\"")], None);
+    add("match value equal arms", "match {0} { ({1}) => {2}, ({3}) => {4}, => {5}, }", vec![p("int", "5"), p("int", "5"), p("int", "1"), p("int", "5"), p("int", "2"), p("int", "3")], Some(vec![0, 1, 2]));
     // iterator operators
     add("reduce", "{0} ${1} {2}", vec![p("iter", "[1, 2]~"), p("int", "0"), p("fn2", "(a: int, b: int) -> int { return a + b }")], None);
     add("map", "{0} @ {1}", vec![p("iter", "[1, 2]~"), p("fn1", "(a: int) -> int { return a }")], None);
@@ -289,7 +319,12 @@ pub fn run(tier: &str) -> i32 {
     });
     let Acc { programs, rejected, logs, violations } = acc;
     report.violations(violations);
+    // an operation in a branch that is not chosen, or in a function that is not called, is not
+    // evaluated - not even by the folder when the function value capturing its operands is created
+    let unreached = crate::core::on_big_stack(|| crate::props::c12::unreached_failures("C07"));
+    report.violations(unreached.1);
     let coverage = json!({
+        "unreached_failure_cases": unreached.0,
         "states": programs,
         "transitions": programs,
         "traces_validated_against_impl": programs,
